@@ -690,7 +690,22 @@ def model_view(msnap, mgraph):
         "branch_tree": mgraph.info(msnap["branch"])["tree"],
         "head_is_top": (st is None) or (st["head"] == msnap["branch"]),
         "log_len": log_len(msnap, mgraph),
+        "deltas": patch_deltas(st, mgraph) if st else {},
     }
+
+
+def patch_deltas(st, mgraph):
+    """per patch: list of (cell, value) its commit changes relative to its parent"""
+    out = {}
+    for n, oid in st["P"].items():
+        info = mgraph.info(oid)
+        if not info["parents"] or info["tree"] is None:
+            continue
+        par = mgraph.info(info["parents"][0])
+        if par["tree"] is None:
+            continue
+        out[n] = [(i, v) for i, (u, v) in enumerate(zip(par["tree"], info["tree"])) if u != v]
+    return out
 
 
 def log_len(msnap, mgraph):
